@@ -7,3 +7,21 @@ Definition jid_local_max : N := 1023.
 Definition jid_resource_max : N := 1023.
 Definition jid_domain_min : N := 1.
 Definition jid_domain_max : N := 1023.
+
+(* ---- write sites of package jid: (function:written slice, origin) ---- *)
+Inductive wkind := WFresh | WShared.
+Definition jid_write_sites : list (bytes * wkind) := [
+  (hex "4e65773a64617461", WFresh)  (* New: data *);
+  (hex "4e65773a64617461", WFresh)  (* New: data *);
+  (hex "4e65773a64617461", WFresh)  (* New: data *);
+  (hex "576974684c6f63616c3a64617461", WFresh)  (* WithLocal: data *);
+  (hex "576974684c6f63616c3a64617461", WFresh)  (* WithLocal: data *);
+  (hex "57697468446f6d61696e3a64617461", WFresh)  (* WithDomain: data *);
+  (hex "57697468446f6d61696e3a64617461", WFresh)  (* WithDomain: data *);
+  (hex "57697468446f6d61696e3a64617461", WFresh)  (* WithDomain: data *);
+  (hex "576974685265736f757263653a64617461", WFresh)  (* WithResource: data *);
+  (hex "576974685265736f757263653a64617461", WFresh)  (* WithResource: data *);
+  (hex "4e6577556e736166653a64617461", WFresh)  (* NewUnsafe: data *);
+  (hex "4e6577556e736166653a64617461", WFresh)  (* NewUnsafe: data *);
+  (hex "4e6577556e736166653a64617461", WFresh)  (* NewUnsafe: data *)].
+Definition jid_writers : list bytes := [hex "4e6577" (* New *); hex "576974684c6f63616c" (* WithLocal *); hex "57697468446f6d61696e" (* WithDomain *); hex "576974685265736f75726365" (* WithResource *); hex "4e6577556e73616665" (* NewUnsafe *)].
